@@ -25,6 +25,8 @@ import os, json, math, shutil, re
 import vlib, femgen, meshlib
 from props import c07_gen
 
+# theorems about the renumbering model Renumber.v that belong to this property (its correspondence runs with C02: props/xcm.py)
+EXTRA_PROPERTY_FILES = ["C07_renumber"]
 LEVEL = "proof"
 COQ_MODULES = ["gen/PbcSel", "Pbc"]
 ASSUMPTIONS = [
